@@ -248,6 +248,34 @@ def body(ctx, conv, shape, variant, kind, part, data_first=False, via=None):
             except Exception:
                 got = None
             ctx.check(got is None, 'wind_index returned only for in-range index (no wrap / clamp)')
+        # the sizes themselves and their neighbours, as Python and numpy integers
+        for n in (size, size + 1, numpy.int64(size), numpy.int32(size), -1, numpy.int64(-1)):
+            try:
+                got = convention.wind_index(n, grid_kind=kind_obj)
+            except Exception:
+                got = None
+            ctx.check(got is None, 'wind_index returned only for in-range index (no wrap / clamp)')
+        # native indexes with a component that is not a whole number name no location: refused, or at least never
+        # moved onto a neighbouring location (whatever comes back must convert back to what was given)
+        template = convention.wind_index(size - 1, grid_kind=kind_obj)
+        comps_at = [k for k, c in enumerate(template) if isinstance(c, (int, numpy.integer)) and not isinstance(c, bool)] if isinstance(template, tuple) else None
+        for frac in (-0.5, 0.5, -1e-300, 5e-324, 0.999999, -0.999999, 1.5):
+            for pos in (comps_at if comps_at is not None else [None]):
+                if pos is None:
+                    given = frac
+                else:
+                    lst = list(template)
+                    lst[pos] = (0 if frac < 1 else lst[pos] - 1) + frac if lst[pos] >= 1 or frac < 1 else frac
+                    given = tuple(lst)
+                try:
+                    n = convention.ravel_index(given)
+                except Exception:
+                    continue
+                try:
+                    back = convention.wind_index(int(n), grid_kind=kind_obj)
+                except Exception:
+                    back = None
+                ctx.check(back is not None and back == given, 'ravel_index returned only for in-range index (no wrap / clamp)')
         if conv == 'cf1d':
             from emsarray.conventions.grid import CFGrid1D
             big = builders.cf1d(50000, 50001, lat=numpy.linspace(-80.0, 80.0, 50000), lon=numpy.linspace(0.0, 359.0, 50001))
